@@ -318,7 +318,24 @@ def rule_bufbind(ctx, prop: str) -> RuleResult:
                 return False
 
             ok = False
+            # (a) the condition governing the recording implies: nothing recorded yet, or the
+            #     recorded buffer equals the new one
             if iff is not None:
+                from ..boolform import implies as bf_implies, to_form as bf_form
+
+                g = bf_form(iff.test) if in_body else ("not", bf_form(iff.test))
+                rec = None
+                for k in ast.walk(iff.test):
+                    if isinstance(k, ast.Attribute) and k.attr == "solution_buf":
+                        rec = ast.unparse(k)
+                if rec is not None:
+                    a_, b_ = sorted([rec, new])
+                    spec = ("or", [("not", ("atom", rec)), ("cmp", f"{a_} <=> {b_}", frozenset({"eq"}))])
+                    try:
+                        ok = bf_implies(g, spec)[0]
+                    except ValueError:
+                        ok = False
+            if iff is not None and not ok:
                 if in_body:
                     # first-sight branch: the other side must compare and raise
                     for k in iff.orelse:
